@@ -279,9 +279,16 @@ theorem toUsize_pos {d : Dec} {i : Nat} (h : d.toUsize? = some i) (hc : d.coeff 
         exact Nat.mul_pos (Nat.pos_of_ne_zero hc) (Nat.pow_pos (by decide))
       · exact absurd h (by simp)
 
-theorem decodePos_sound {p : Dec} {pos : Bool × Nat} (h : decodePos p = some pos) :
+/-- the position decoding on the plain text of a number (what the conversions did before
+they went through the integral form; now applied to `integralForm p`) -/
+def decodePosP (p : Dec) : Option (Bool × Nat) :=
+  if p.isPos then (p.toUsize?).map (fun i => (false, i))
+  else if p.isNeg then ((Dec.abs p).toUsize?).map (fun i => (true, i))
+  else none
+
+theorem decodePosP_sound {p : Dec} {pos : Bool × Nat} (h : decodePosP p = some pos) :
     p.toInt? = some (posInt pos) ∧ 1 ≤ pos.2 ∧ pos.2 < Usz.modulus := by
-  unfold decodePos at h
+  unfold decodePosP at h
   split at h
   · rename_i hp
     cases hu : p.toUsize? with
@@ -318,7 +325,7 @@ theorem decodePos_sound {p : Dec} {pos : Bool × Nat} (h : decodePos p = some po
 
 /-- A number written without fraction digits (`exp ≥ 0`) that is not read as a position is
 zero or at least `2^64` in magnitude. -/
-theorem decodePos_none {p : Dec} (hexp : 0 ≤ p.exp) (h : decodePos p = none) :
+theorem decodePosP_none {p : Dec} (hexp : 0 ≤ p.exp) (h : decodePosP p = none) :
     ∃ v, p.toInt? = some v ∧ (v = 0 ∨ Usz.modulus ≤ v.natAbs) := by
   obtain ⟨neg, c, e⟩ := p
   simp only at hexp
@@ -327,7 +334,7 @@ theorem decodePos_none {p : Dec} (hexp : 0 ≤ p.exp) (h : decodePos p = none) :
   · by_cases hc : c = 0
     · left; subst hc; simp [Dec.scoeff]
     · right
-      unfold decodePos Dec.isPos Dec.isNeg Dec.toUsize? Dec.abs at h
+      unfold decodePosP Dec.isPos Dec.isNeg Dec.toUsize? Dec.abs at h
       simp only at h
       have hnlt : ¬ e < 0 := by omega
       cases neg with
@@ -345,6 +352,89 @@ theorem decodePos_none {p : Dec} (hexp : 0 ≤ p.exp) (h : decodePos p = none) :
         have : (-(c : Int) * 10 ^ e.toNat).natAbs = c * 10 ^ e.toNat := by
           rw [Int.natAbs_mul, Int.natAbs_pow]; simp
         omega
+
+theorem div_eq_zero_of_dvd {c k : Nat} (hk : 0 < k) (h : c % k = 0) : c / k = 0 ↔ c = 0 := by
+  constructor
+  · intro h0
+    have := Nat.div_add_mod c k
+    rw [h0, h] at this
+    omega
+  · intro h0; subst h0; simp
+
+/-- an integral value: its integral form is written without fraction digits, denotes the same
+integer, and is read as the same position -/
+theorem decodePos_integral {p : Dec} (h : p.isIntegral = true) :
+    decodePos p = decodePosP p.integralForm ∧ p.integralForm.toInt? = p.toInt? ∧ 0 ≤ p.integralForm.exp
+      ∧ p.integralForm.neg = p.neg ∧ (p.integralForm.coeff = 0 ↔ p.coeff = 0) := by
+  obtain ⟨neg, c, e⟩ := p
+  by_cases he : e ≥ 0
+  · have ht : Dec.integralForm ⟨neg, c, e⟩ = ⟨neg, c, e⟩ := by
+      simp [Dec.integralForm, Dec.isIntegral, Dec.trunc, he]
+    have hta : Dec.integralForm (Dec.abs ⟨neg, c, e⟩) = Dec.abs ⟨neg, c, e⟩ := by
+      simp [Dec.integralForm, Dec.isIntegral, Dec.trunc, Dec.abs, he]
+    refine ⟨?_, by rw [ht], by rw [ht]; exact he, by rw [ht], by rw [ht]⟩
+    unfold decodePos decodePosP Dec.toUsizeV?
+    rw [ht, hta]
+  · have hdiv : c % 10 ^ (-e).toNat = 0 := by
+      simp only [Dec.isIntegral, he, decide_false, Bool.false_or, beq_iff_eq] at h
+      exact h
+    have hpow : 0 < 10 ^ (-e).toNat := Nat.pow_pos (by decide)
+    have hz := div_eq_zero_of_dvd hpow hdiv
+    have ht : ∀ n, Dec.integralForm ⟨n, c, e⟩ = ⟨n, c / 10 ^ (-e).toNat, 0⟩ := by
+      intro n; simp [Dec.integralForm, Dec.isIntegral, Dec.trunc, he, hdiv]
+    refine ⟨?_, ?_, by rw [ht]; exact Int.le_refl 0, by rw [ht], by rw [ht]; exact hz⟩
+    · unfold decodePos decodePosP Dec.toUsizeV? Dec.isPos Dec.isNeg Dec.abs
+      simp only [ht]
+      by_cases hc : c = 0
+      · have := hz.mpr hc
+        simp [hc]
+      · have : ¬ c / 10 ^ (-e).toNat = 0 := fun h0 => hc (hz.mp h0)
+        simp [hc, this]
+    · rw [ht]
+      unfold Dec.toInt? Dec.scoeff
+      simp only [ge_iff_le, Int.le_refl, if_true, Int.toNat_zero, Int.pow_zero, Int.mul_one, he, if_false, hdiv,
+        beq_self_eq_true]
+
+/-- a value with a fraction is not a position, for the code and for the specification -/
+theorem decodePos_nonintegral {p : Dec} (h : p.isIntegral = false) :
+    decodePos p = none ∧ p.toInt? = none ∧ p.toUsizeV? = none ∧ p.toIsizeV? = none := by
+  obtain ⟨neg, c, e⟩ := p
+  simp only [Dec.isIntegral, Bool.or_eq_false_iff, decide_eq_false_iff_not, beq_eq_false_iff_ne] at h
+  obtain ⟨he, hd⟩ := h
+  have hlt : e < 0 := by omega
+  have ht : ∀ n, Dec.integralForm ⟨n, c, e⟩ = ⟨n, c, e⟩ := by
+    intro n; simp [Dec.integralForm, Dec.isIntegral, he, hd]
+  refine ⟨?_, ?_, ?_, ?_⟩
+  · unfold decodePos Dec.toUsizeV? Dec.abs
+    simp only [ht, Dec.toUsize?, hlt, if_true]
+    split <;> simp
+  · unfold Dec.toInt?; simp [he, hd]
+  · unfold Dec.toUsizeV?; rw [ht]; unfold Dec.toUsize?; simp [hlt]
+  · unfold Dec.toIsizeV?; rw [ht]; unfold Dec.toIsize?; simp [hlt]
+
+theorem decodePos_sound {p : Dec} {pos : Bool × Nat} (h : decodePos p = some pos) :
+    p.toInt? = some (posInt pos) ∧ 1 ≤ pos.2 ∧ pos.2 < Usz.modulus := by
+  cases hi : p.isIntegral with
+  | false => rw [(decodePos_nonintegral hi).1] at h; cases h
+  | true =>
+    obtain ⟨h1, h2, _, _, _⟩ := decodePos_integral hi
+    rw [h1] at h
+    have := decodePosP_sound h
+    rw [h2] at this
+    exact this
+
+/-- A number that is not read as a position has a fraction, is zero, or is at least `2^64` in
+magnitude. -/
+theorem decodePos_none {p : Dec} (h : decodePos p = none) :
+    p.toInt? = none ∨ ∃ v, p.toInt? = some v ∧ (v = 0 ∨ Usz.modulus ≤ v.natAbs) := by
+  cases hi : p.isIntegral with
+  | false => exact Or.inl (decodePos_nonintegral hi).2.1
+  | true =>
+    obtain ⟨h1, h2, h3, _, _⟩ := decodePos_integral hi
+    rw [h1] at h
+    have := decodePosP_none h3 h
+    rw [h2] at this
+    exact Or.inr this
 
 theorem startIndex_out_of_range {len : Nat} {v : Int} (hL : len < Usz.modulus)
     (h : v = 0 ∨ Usz.modulus ≤ v.natAbs) : Spec.startIndex len v = none := by
